@@ -1,5 +1,5 @@
 """C10 - one-shot results depend only on the arguments, never on earlier calls.  MC: MC_Objects enumerates every call
-sequence of length <= D over a 6-letter per-kind alphabet (the specified objects have no result-relevant state).
+sequence of length <= D over a 7-letter per-kind alphabet (the specified objects have no result-relevant state).
 Bind: the outcome of every (kind, call) on a freshly constructed object is recorded first (the table); every sequence
 is then replayed on one long-lived instance, its sibling and the module-level singleton; TLC (Trace_Objects) decides
 at every step that the observed relation call -> result is a function, i.e. equals the fresh-object outcome."""
@@ -124,6 +124,23 @@ def kinds():
             ('enc v1 M1', True, lambda e: e.A.enc(v1, M1)), ('enc v2 M2', True, lambda e: e.A.enc(v2, M2)), ('keystream partly consumed', False, ks),
             ('dec v1', True, lambda e: e.A.dec(v1, M2)), ('sibling enc v1 M1', True, lambda e: e.B.enc(v1, M1)), ('enc v1 M3', True, lambda e: e.A.enc(v1, M3))])
     streamkind('Salsa20', salsa20.Salsa20); streamkind('Chacha', chacha.Chacha)
+    # 7th call of every alphabet: a call on an instance of the same class that is configured DIFFERENTLY (other key /
+    # size / parameters) - it perturbs only; class-level caches or tables keyed on too little show up in the next judged call
+    other = {
+        'SHA1': lambda e: sha.SHA1(0)(M2), 'SHA0': lambda e: sha.SHA1(1)(M2), 'SHA2-256': lambda e: sha.SHA2(224)(M2), 'SHA2-512/256': lambda e: sha.SHA2(512, 224)(M2),
+        'SHA2-384': lambda e: sha.SHA2(512)(M2), 'MD4': lambda e: md.MD5()(M2), 'MD5': lambda e: md.MD4()(M2), 'SHA3': lambda e: sha.SHA3(512)(M2),
+        'Keccak': lambda e: keccak.Keccak(b=800, r=256, len=128)(M2, 77), 'Keccak-200': lambda e: keccak.Keccak(b=200, r=64, len=72)(M2), 'MD6': lambda e: md.MD6(160, b'', 0)(M2),
+        'Blake': lambda e: blake.Blake(224)(M2, 7), 'Blake512': lambda e: blake.Blake(384)(M2, 7), 'Blake2b': lambda e: blake.Blake2(256)(M2, outlen=9), 'Blake2s': lambda e: blake.Blake2(512)(M2, outlen=33),
+        'Skein': lambda e: skein.Skein(512, 160, key=b'k')(M2), 'Skein-mac-long': lambda e: skein.Skein(256, 64)(M2), 'Skein-tree': lambda e: skein.Skein(256, 256, Yl=2, Yf=1, Ym=2)(M3),
+        'HMAC': lambda e: hmac.HMAC(md.MD5(), b'k2')(M2), 'TLSH': lambda e: tlsh.TLSH(256, 6, 3)(D2, True), 'Nilsimsa': lambda e: nilsimsa.Nilsimsa(99)(D2),
+        'AES': lambda e: aes.AES(BLK(24)[::-1]).enc(BLK(16)), 'AES-256': lambda e: aes.AES(BLK(16)[::-1]).dec(BLK(16)), 'DES': lambda e: des.DES(BLK(8)[::-1]).enc(BLK(8)),
+        'TDEA': lambda e: des.TDEA(BLK(16)[::-1]).enc(BLK(8)), 'Serpent': lambda e: serpent.Serpent(BLK(32)[::-1]).enc(BLK(16)), 'Threefish': lambda e: threefish.Threefish(BLK(64), BLK(16)[::-1]).enc(BLK(64)),
+        'ECB': lambda e: mode.ECB(aes.AES(BLK(32)), nopadding).enc(M1[:32]), 'CBC': lambda e: mode.CBC(des.DES(BLK(8)), BLK(8)).enc(M2), 'ECB-nopad': lambda e: mode.ECB(des.DES(BLK(8)[::-1])).enc(M2),
+        'CBC-nopad': lambda e: mode.CBC(aes.AES(BLK(16)), BLK(16)).enc(M2), 'CTR': lambda e: mode.CTR(des.DES(BLK(8)), BLK(8)).enc(M2), 'CTS_ECB': lambda e: mode.CTS_ECB(des.DES(BLK(8))).enc(M2),
+        'CTS_CBC': lambda e: mode.CTS_CBC(des.DES(BLK(8)), BLK(8)).enc(M2),
+        'Salsa20': lambda e: salsa20.Salsa20(Bits(BLK(16), bitorder=1), 20).enc(Bits(BLK(8), bitorder=1), M2), 'Chacha': lambda e: chacha.Chacha(Bits(BLK(16), bitorder=1), 8).enc(Bits(BLK(8), bitorder=1), M2)}
+    for name in K:
+        K[name][1].append(('other configuration instance', False, other[name]))
     return K
 
 STATEFUL = {'ECB', 'CBC', 'ECB-nopad', 'CBC-nopad', 'CTR', 'CTS_ECB', 'CTS_CBC', 'Blake2b', 'Blake2s', 'Keccak', 'Keccak-200', 'SHA3', 'Skein', 'Skein-mac-long', 'Skein-tree', 'AES', 'TLSH', 'Nilsimsa', 'HMAC', 'MD6'}
@@ -134,11 +151,11 @@ def run(ctx):
     for D in ((2, 3, 4) if big else (2, 3)):
         r = ctx.model_check('mc/MC_Objects.tla', 'mc/MC_Objects_D%d.cfg' % D if D != 3 else 'mc/MC_Objects.cfg', what='MC_Objects depth %d' % D)
         seqs[D] = [p for p in r['printed'] if isinstance(p, list) and p and isinstance(p[0], int)]
-        if len(seqs[D]) != sum(6 ** j for j in range(1, D + 1)): raise core.Machinery('MC_Objects printed %d sequences for depth %d' % (len(seqs[D]), D))
+        if len(seqs[D]) != sum(7 ** j for j in range(1, D + 1)): raise core.Machinery('MC_Objects printed %d sequences for depth %d' % (len(seqs[D]), D))
     K = kinds()
     traces = []
     for name, (factory, alpha) in K.items():
-        assert len(alpha) == 6, name
+        assert len(alpha) == 7, name
         # the table: every call on fresh objects
         tab = []
         for lab, judged, fn in alpha:
@@ -154,7 +171,7 @@ def run(ctx):
                 key = name + '/' + lab
                 evs.append(dict(key=key, judged=bool(judged and fresh[key].startswith('ok:')), out=outcome(fn, env)))
             traces.append(dict(tab=tab, ev=evs, kind=name, seq=s)); ctx.mark((name, str(s)))
-    ctx.exhaustive_subspaces.append('all call sequences of length <= %s over a 6-call alphabet per kind (%d kinds): default call, call with other options, call that raises, incremental/auxiliary call, sibling instance, singleton / other message'
+    ctx.exhaustive_subspaces.append('all call sequences of length <= %s over a 7-call alphabet per kind (%d kinds): default call, call with other options, call that raises, incremental/auxiliary call, sibling instance, singleton / other message, differently configured instance'
                                     % ('4 (stateful kinds, every third of depth 4) / 3' if big else '3 (kinds with shared state) / 2', len(K)))
     ctx.evaluations = sum(len(t['ev']) for t in traces)
     ctx.sample(dict(kind=traces[50]['kind'], seq=traces[50]['seq'], events=traces[50]['ev'])); ctx.sample(dict(kind=traces[-1]['kind'], table=[(t['key'], t['out'][:40]) for t in traces[-1]['tab']]))
